@@ -195,6 +195,20 @@ theorem c13_executed_messages_are_signed (g : GenCfg) (s s' : State) (hr : Reach
     FinePath s s' ∧ GrantsOK s' :=
   chainStep_fine s s' hs (reachable_fine g s hr).2
 
+/-- an explicit fee payer (`AuthInfo.Fee.Payer`) is a required signer: a transaction naming somebody else as the payer of
+its fee is executed only with that account's signature -/
+theorem c13_fee_payer_signs (mode : Mode) (hm : mode ≠ .recheck) (s s' : State) (tx : Tx) (p : Addr)
+    (h : ante Facts.anteOrder mode s tx = .ok s') (hp : tx.feePayer = some p) : p ∈ tx.signers ∧ tx.payer = some p := by
+  obtain ⟨hs, _, _, _⟩ := c13_tx_binds_signers mode hm s s' tx h
+  refine ⟨?_, by unfold Tx.payer; rw [hp]⟩
+  rw [hs]
+  unfold Tx.required
+  rw [hp]
+  simp only
+  split
+  · rename_i hc; simpa using hc
+  · simp
+
 /-- only the gov module account passes the authority check of the four `MsgUpdateParams` handlers, and a
 proposal message is executed only with the gov module as its signer -/
 theorem c13_params_only_by_governance (wall : Nat) (s : State) (m : Msg) :
